@@ -859,7 +859,15 @@ func (r *erun) ensureConnected(a, b int) (bool, string) {
 }
 
 // expectPenalty waits until x's stored score for y's IP shows the effect of a penalty that was triggered after t0:
-// exact >= 0: the score must become prev+exact; exact < 0: it must rise. Then the model is updated with what was seen.
+// exact >= 0: the score must become prev+exact; exact < 0: it must rise; exact == banAtOnce: it must rise to the ban
+// threshold or beyond in this one step. Then the model is updated with what was seen.
+//
+// banAtOnce is what pkg/p2p documents for envelope offences (undecodable request/response envelope, unregistered
+// procedure): onRequest/onResponse call banRemotePeer -> Peer.banPeer = addPenalty(MaxPenaltyScore) + disconnect. Until
+// the audit of 2026-09 ANY rise of the stored score was accepted for them and became the model's ledger entry, so a
+// token penalty (+1) instead of the ban went through; multiconn_test.go (envelopeOffence) already demanded the ban.
+const banAtOnce = -2
+
 func (r *erun) expectPenalty(x, y int, exact int, cause string, t0 time.Time) string {
 	X, Y := r.nodes[x], r.nodes[y]
 	st := X.bm.get(Y.ip)
@@ -886,8 +894,15 @@ func (r *erun) expectPenalty(x, y int, exact int, cause string, t0 time.Time) st
 	}
 	X.cause[y] = cause
 	r.logf("%s: score of %s at %s: %d -> %d", cause, Y.ip, r.name(x), prev, sc)
+	if exact == banAtOnce && sc < threshold {
+		return fmt.Sprintf("%s by %s raised its score at %s by %d only (%d -> %d, ban threshold %d) and left the IP %s unbanned: a malformed envelope / unknown procedure must ban the peer at once",
+			cause, r.name(y), r.name(x), sc-prev, prev, sc, threshold, Y.ip)
+	}
 	if v := X.bm.penalty(Y.ip, sc-prev, sc, true, t0, t1); v != "" {
 		return v
+	}
+	if exact == banAtOnce && !st.banned {
+		return fmt.Sprintf("%s by %s: score %d -> %d at %s but the model does not have %s banned (threshold %d)", cause, r.name(y), prev, sc, r.name(x), Y.ip, threshold)
 	}
 	if prev == 0 || X.contrib[Y.ip] == nil {
 		X.contrib[Y.ip] = map[int]bool{}
@@ -1534,7 +1549,7 @@ func (r *erun) runEvent(e eev) string {
 			r.res.infra = "raw send failed: " + err.Error()
 			return ""
 		}
-		return r.expectPenalty(b, a, -1, e.Kind, t0)
+		return r.expectPenalty(b, a, banAtOnce, e.Kind, t0)
 	case "dial":
 		return r.dial(a, b, "scenario event")
 	case "drop":
